@@ -252,12 +252,14 @@ func (w *hpW) heapInit() {
 		r.Probe("heap-init-slice")
 	}
 	lessFn := func(a, b hpItem) bool { return w.less(a.p, b.p) }
+	// a three-way compare may return any negative/positive number, not just -1/+1
+	mag := 1 + 6*r.Choose(2, "cmp-magnitude")
 	cmpFn := func(a, b hpItem) int {
 		switch {
 		case w.less(a.p, b.p):
-			return -1
+			return -mag
 		case w.less(b.p, a.p):
-			return 1
+			return mag
 		}
 		return 0
 	}
@@ -449,12 +451,13 @@ func (w *hpW) pqInit() {
 		r.Logf("PriorityQueue built from %v, order=%d keys=%d priorities=%d", initial, w.order, w.nKeys, w.nPrio)
 	}
 	if w.order >= 2 {
+		qmag := 1 + 6*r.Choose(2, "cmp-magnitude")
 		w.q = xheap.NewPriorityQueueCmp(func(a, b int) int {
 			switch {
 			case w.less(a, b):
-				return -1
+				return -qmag
 			case w.less(b, a):
-				return 1
+				return qmag
 			}
 			return 0
 		}, initial)
